@@ -82,7 +82,7 @@ impl Op {
 }
 
 #[derive(Clone, Debug, PartialEq)]
-enum Out {
+pub enum Out {
     Count(usize),
     Unit,
     Data(Vec<u8>),
@@ -144,7 +144,7 @@ impl<M: GuestMemory> ObjAccess for M {
 
 /// Executes `op` on the real memory. Returns the classified result and, for read routes with a
 /// caller-visible buffer, the complete buffer afterwards (prefilled with 0xEE).
-fn exec<M: GuestMemory>(m: &M, op: &Op) -> (Out, Vec<u8>) {
+pub fn exec<M: GuestMemory>(m: &M, op: &Op) -> (Out, Vec<u8>) {
     let a = GuestAddress(op.addr);
     let data = op.data();
     match op.route {
@@ -219,7 +219,7 @@ pub struct Model {
 }
 
 impl Model {
-    fn labelled(l: &Layout) -> Model {
+    pub fn labelled(l: &Layout) -> Model {
         let mut k = 0u8;
         Model {
             cells: l
@@ -244,7 +244,7 @@ impl Model {
             self.cells[i][o as usize] = v;
         }
     }
-    fn flat(&self) -> Vec<u8> {
+    pub fn flat(&self) -> Vec<u8> {
         self.cells.concat()
     }
 }
@@ -267,7 +267,7 @@ fn dump<M: GuestMemory + RegionPtrs>(m: &M, l: &Layout) -> Vec<u8> {
 
 /// Expected outcome and model update. Returns (expected Out, expected visible buffer / sink /
 /// consumed count, whether the outcome class `OtherErr` is acceptable).
-fn expect(l: &Layout, model: &mut Model, op: &Op, aligned_ok: bool) -> (Out, Vec<u8>) {
+pub fn expect(l: &Layout, model: &mut Model, op: &Op, aligned_ok: bool) -> (Out, Vec<u8>) {
     let n = l.run(op.addr, op.len as u128) as usize;
     let data = op.data();
     match op.route {
@@ -364,7 +364,7 @@ fn expect(l: &Layout, model: &mut Model, op: &Op, aligned_ok: bool) -> (Out, Vec
     }
 }
 
-fn same_class(got: &Out, want: &Out) -> bool {
+pub fn same_class(got: &Out, want: &Out) -> bool {
     match (got, want) {
         (Out::OtherErr(_), Out::OtherErr(_)) => true,
         _ => got == want,
